@@ -269,6 +269,7 @@ func schemaLean(repo string) []string {
 		{"x/pos/types", "MsgStake", "schemaMsgStake"},
 		{"x/gov/types", "MsgUpgrade", "schemaMsgUpgrade"},
 		{"x/gov/types", "Upgrade", "schemaUpgrade"},
+		{"x/auth/types", "BaseAccount", "schemaBaseAccount"},
 		{"x/auth/types", "StdTx", "schemaStdTx"},
 		{"x/auth/types", "StdSignature", "schemaStdSignature"},
 		{"types", "Coin", "schemaCoin"},
